@@ -151,6 +151,14 @@ fn main() {
                 run = Run::new("C18", &tier, "model_checking");
                 engines::c18::run(&mut run);
             }
+            "C20" => {
+                run = Run::new("C20", &tier, "model_checking");
+                engines::c20::run(&mut run);
+            }
+            "C11" => {
+                run = Run::new("C11", &tier, "model_checking");
+                engines::c11::run(&mut run);
+            }
             "C10" => {
                 run = Run::new("C10", &tier, "model_checking");
                 engines::c10::run(&mut run);
@@ -185,6 +193,8 @@ fn replay(dir: &str) -> i32 {
         "c17" => engines::c17::replay(case),
         "c13" => engines::c13::replay(case),
         "faults" => engines::faults::replay(case),
+        "c11" => engines::c11::replay(case),
+        "c20" => engines::c20::replay(case),
         "c18" => engines::c18::replay(case),
         "c19" | "c19-law" => engines::c19::replay(case),
         "c09" | "c09-plant" => engines::c09::replay(case),
